@@ -56,33 +56,58 @@ def leaf(fn, F):
 def run(ctx):
     F = ctx.facts
     ks = {}
+    EMPTY = ("call", "arrayvec::ArrayVec::<T, CAP>::is_empty", (("var", "moves"),))
     for path, (kind, checked) in SIBS.items():
         fn = F.fn(path)
-        lf, order = leaf(fn, F)
         short = path.split("::")[-1]
-        d_ok = lf["draw"] is not None and lf["draw"][0] == [("Game::king_exists(game, player)", True),
-                                                             ("Game::is_targeted(game, Game::get_king_position(game, player), player)", False)]
-        ctx.check("C10.N1", "no-move=>draw-iff-king-safe:%s" % short, d_ok, fn=path, file=fn["file"],
-                  line=hir.line(lf["draw"][1]) if lf["draw"] else fn["span"][0],
-                  what="with no move available the node is a draw (0) exactly when the mover's king exists and is not attacked",
-                  expected="king_exists(player) && !is_targeted(get_king_position(player), player) => 0",
-                  found=lf["draw"][0] if lf["draw"] else None)
-        m_ok = False
+        body = fn["hir"]["body"]
+        env = hir.Env(fn["hir"], F)
+        sym = hir.Sym(env, F)
+        KE = ("call", "chess::Game::king_exists", (("var", "game"), ("var", "player")))
+        IT = ("call", "chess::Game::is_targeted", (("var", "game"), ("call", "chess::Game::get_king_position", (("var", "game"), ("var", "player"))), ("var", "player")))
+        base = {EMPTY: ("lit", True), ("var", "remaining_depth"): ("lit", 5), ("var", "alpha"): ("lit", -7), ("var", "beta"): ("lit", 9),
+                ("call", "std::sync::atomic::Atomic::<bool>::load", (("var", "continue_running"), ("variant", "std::sync::atomic::Ordering::Relaxed"))): ("lit", True),
+                ("call", "std::collections::HashMap::<K, V, S, A>::get", (("var", "table"), ("call", "chess::Game::hash", (("var", "game"),)))): ("variant", "std::prelude::v1::None")}
+        # the atomic load / probe are spelled through generic paths: assume every `load(continue_running..)` / `get(table, ..)` term found
+        for n_, _ in hir.walk(body):
+            if n_.get("k") == "MethodCall" and n_["name"] == "load":
+                base[sym(n_)] = ("lit", True)
+            if n_.get("k") == "MethodCall" and n_["name"] == "get" and "HashMap" in (hir.callee_of(n_) or ""):
+                base[sym(n_)] = ("variant", "std::prelude::v1::None")
+            if n_.get("k") == "MethodCall" and n_["name"] == "is_empty" and hir.strip(n_["recv"]).get("to", {}).get("name") == "moves":
+                base[sym(n_)] = ("lit", True)
+        rows = []
         K = None
-        if lf["mate"] is not None:
-            v, cond, node = lf["mate"]
-            # ((MIN + K) + (real_depth as i16))
-            if v[0] == "bin" and v[1] == "+" and v[3] == ("cast", ("var", "real_depth"), "i16") and v[2][0] == "bin" and v[2][1] == "+" \
-                    and v[2][2] == ("const", "core::num::<impl i16>::MIN") or \
-                    (v[0] == "bin" and v[1] == "+" and v[3] == ("cast", ("var", "real_depth"), "i16") and v[2][0] == "bin"
-                     and "MIN" in hir.fmt(v[2][2], 40)):
-                K = hir.sym_int(v[2][3])
-            m_ok = K is not None and cond == [("(Game::king_exists(game, player) && !Game::is_targeted(game, Game::get_king_position(game, player), player))", False)]
-        ks[path] = K
-        ctx.check("C10.N1", "no-move=>mate-score-by-distance:%s" % short, m_ok, fn=path, file=fn["file"],
-                  line=hir.line(lf["mate"][2]) if lf["mate"] else fn["span"][0],
+        ok_d = ok_m = True
+        for ke in (True, False):
+            for it in (True, False):
+                a = dict(base)
+                a[KE], a[IT] = ("lit", ke), ("lit", it)
+                v, why = hir.eval_returns(body, sym, a, helpers=hir.table_helpers(F))
+                if v is not None:
+                    v = hir.resolve_consts(v, F)
+                    if v[0] == "ctor" and str(v[1]).endswith("::Some"):
+                        v = v[2][0]
+                rows.append(((ke, it), hir.fmt(v, 80) if v is not None else why))
+                if ke and not it:
+                    ok_d = ok_d and v == ("lit", 0)
+                else:
+                    k_ = None
+                    if v is not None and v[0] == "bin" and v[1] == "+" and v[3] == ("cast", ("var", "real_depth"), "i16") and v[2][0] == "bin" and v[2][1] == "+" \
+                            and "MIN" in hir.fmt(v[2][2], 40):
+                        k_ = hir.sym_int(v[2][3])
+                    if v is not None and v[0] == "bin" and v[1] == "+" and v[3] == ("cast", ("var", "real_depth"), "i16") and hir.sym_int(v[2]) is not None:
+                        k_ = hir.sym_int(v[2]) + 32768
+                    ok_m = ok_m and k_ is not None and (K is None or K == k_)
+                    K = k_ if k_ is not None else K
+        ks[path] = K if ok_m else None
+        ctx.check("C10.N1", "no-move=>draw-iff-king-safe:%s" % short, ok_d, fn=path, file=fn["file"], line=fn["span"][0],
+                  what="with no move available the node is a draw (0) exactly when the mover's king exists and is not attacked",
+                  expected="king_exists(player) && !is_targeted(get_king_position(player), player) => 0", found=rows)
+        ctx.check("C10.N1", "no-move=>mate-score-by-distance:%s" % short, ok_m and K is not None, fn=path, file=fn["file"], line=fn["span"][0],
                   what="otherwise the node is lost: Score::MIN + K + real_depth (the earlier the mate the worse)",
-                  expected="Score::MIN + K + real_depth as Score", found=hir.fmt(lf["mate"][0], 120) if lf["mate"] else None)
+                  expected="Score::MIN + K + real_depth as Score in the three other cases", found=rows)
+        lf, order = leaf(fn, F)
         p_ok = order[:2] == [("player=", "Game::player(game)"), ("get_moves",)] and ("push",) not in order[:order.index(("get_moves",)) if ("get_moves",) in order else 0]
         ctx.check("C10.N1", "mover-captured-before-anything-is-played:%s" % short, p_ok, fn=path, file=fn["file"],
                   what="`player` must be game.player() taken before moves are generated or played (after a push it is the opponent)",
